@@ -1349,7 +1349,8 @@ async def do_sum(
             return x
 
     async for item in auto_aiter(iterable):
-        rv += func(item)
+        # not ``+=``, that would modify a mutable ``start`` in place
+        rv = rv + func(item)
 
     return rv
 
